@@ -1,6 +1,6 @@
 #!/bin/bash
 # Which parts of /repo/src do the quick checks execute?  A development aid, not a registered command:
-# builds the harness and the rocfl binary with source-based coverage instrumentation (nightly toolchain,
+# builds the harness and the rocfl binary with source-based coverage instrumentation (llvm tools of the nightly toolchain,
 # scratch directory), runs the quick tier of the given properties (default: all) against them and prints
 # the functions of src/ocfl and src/cmd that were never entered, plus per-file line coverage.
 # usage: tools/covaudit.sh [C01 C02 ...]      (needs /repo's working tree clean; about 40 minutes for all)
